@@ -107,6 +107,7 @@ macro_rules! dump_units {
                     "name": u.name(),
                     "symbol": u.symbol(),
                     "prefix": u.si_prefix().map(|p| format!("{:?}", p)),
+                    "prefix_exp": u.si_prefix().map(|p| p.exp()),
                     "as_qty": qj!(u.as_qty()),
                     "disp": format!("{}", u),
                 });
